@@ -768,12 +768,17 @@ def box_kinds():
         kinds.append({"int": True, "shape": shape, "low": [-2, 1], "high": [5, 1]})
         kinds.append({"int": False, "shape": shape, "low": [0, 1], "high": [1, 1]})
         kinds.append({"int": False, "shape": shape, "low": [-3, 2], "high": [5, 2]})
+    # what the small scopes never reach: bounds in the millions (a non-integral value there is relatively close to an
+    # integer: 123456.5 differs from 123456 by less than 1e-5 of its size)
+    kinds.append({"int": True, "shape": [1], "low": [0, 1], "high": [1000000, 1]})
+    kinds.append({"int": True, "shape": [2], "low": [-1000000, 1], "high": [1000000, 1]})
     return kinds
 
 
 def _leaf_alphabet(is_int):
     a = [I(0), I(1), I(2), I(-1), F(1, 2), F(1), FD(1.9), F(-1, 2), TRUE, FALSE, ["ni", 1], ["ni", 7], ["nf", 1, 2],
-         ["nf", 1, 1], NONE, ["fs", "nan"], ["fs", "pinf"], I(2**70), F(5, 2), F(-3, 2), I(5), I(6), I(-2), I(-3)]
+         ["nf", 1, 1], NONE, ["fs", "nan"], ["fs", "pinf"], I(2**70), F(5, 2), F(-3, 2), I(5), I(6), I(-2), I(-3),
+         I(123456), F(246913, 2), F(1999999, 2), FD(3.00001), F(-600001, 2), I(1000000), I(1000001)]
     if not is_int:
         a += [["nfs", "nan"], ["nfs", "ninf"]]
     return a
